@@ -20,9 +20,9 @@ implements (b) as well; `rule_check_whole_tank` implements (a) and is used only 
 import itertools
 
 NAME = "aquarium"
-STATUS = "differential only"
+STATUS = "model+differential"
 THEOREMS = []
-LEAN_CMD = None
+LEAN_CMD = "puz_aquarium"
 
 SHAPES = [(1, 1), (1, 2), (2, 1), (1, 3), (3, 1), (1, 4), (4, 1), (2, 2), (2, 3), (3, 2), (2, 4), (4, 2), (3, 3), (3, 4), (4, 3)]
 
